@@ -171,6 +171,7 @@ def generate(seed, mode):
             wts['rebuild'] = 0
         kinds = list(wts)
         weights = [wts[k] for k in kinds]
+        mortal_world = h64(seed, 'mortal-values-world') % 3 == 0
         # swarm knob: concentrate registrations of all registries around one key asked from the bottom registry
         focus_p = w.choice([0.0, 0.4, 0.7])
         if focus_p:
@@ -249,6 +250,17 @@ def generate(seed, mode):
                 ops.append({'op': 'specmut', 'key': kl, 'pos': o.randrange(1, 4), 'bases': [o.randrange(nRi) for _ in range(o.choice([0, 1, 2]))],
                             'xs': o.sample(range(nRi), o.randint(0, 2)), 'only': o.random() < 0.4, 'also': o.random() < 0.3, 'k': k})
                 ops.append({'op': 'probe', 'k': k})
+                continue
+            if shape in ('subs', 'book', 'dynamic') and mortal_world and o.random() < 0.07:
+                # fault `finalizer-reenters-mutator`: a registered value whose only owner is the registry dies in the middle
+                # of the mutator that releases it, and its finalizer registers a successor in the same registry
+                ops.append({'op': 'mortal', 'form': o.choice(['sub', 'sub', 'reg']), 'r': o.randrange(nR), 'req': req(arity(), nSP + 1),
+                            'p': o.randrange(nP), 'n': o.randrange(3), 'v': o.randrange(len(vals)), 'how': o.randrange(3),
+                            'cached': o.random() < 0.3, 'sreq': req(arity(), nSP + 1), 'ssame': o.choice([0, 1, 1, 2]),
+                            'sp': o.randrange(nP), 'sform': o.choice(['sub', 'sub', 'reg']), 'sv': o.randrange(len(vals)),
+                            'extra': o.random() < 0.5, 'k': k})
+                if o.random() < 0.5:
+                    ops.append({'op': 'unsub', 'r': ops[-1]['r'], 'sel': o.randrange(64), 'how': 0, 'k': k})
                 continue
             if o.random() < gc_rate:
                 ops.append({'op': 'gc', 'k': k})
@@ -403,6 +415,19 @@ def execute(program, ctx, mode):
 
         def __repr__(self):
             return 'V%d' % self.n if not self.falsy else 'V%d(falsy)' % self.n
+
+    class Mortal(Val):
+        """a value the simulator keeps no reference to: it dies when the registry lets go of it, and its finalizer re-enters
+        the registry (fault `finalizer-reenters-mutator`)"""
+        fin = None
+
+        def __del__(self):
+            f, self.fin = self.fin, None
+            if f is not None:
+                f()
+
+        def __repr__(self):
+            return 'M%d' % self.n
 
     R = []
     for i, bs in enumerate(W['rifaces']):
@@ -1435,6 +1460,109 @@ def execute(program, ctx, mode):
                 last_mut[0] = 'unsubscribe'
                 ctx.log(step, 'unsub', r, s[1], s[2], v)
                 opk = (s[1], s[2])
+            elif name == 'mortal':
+                r = op['r'] % nR
+                if not alive[r]:
+                    continue
+                req = [SP[x % len(SP)] if x % (len(SP) + 1) != len(SP) else None for x in op['req']]
+                p = op['p'] % nP
+                nm = NAMES[op['n'] % 3]
+                # where the successor goes: the very same key, the same required with another provided, or another key
+                ssame = op['ssame']
+                sreq = list(req) if ssame in (0, 1) else [SP[x % len(SP)] if x % (len(SP) + 1) != len(SP) else None for x in op['sreq']]
+                sp = p if ssame in (0, 2) else op['sp'] % nP
+                succ = vals[op['sv'] % len(vals)]
+                fired = []
+                fin_errors = []
+                reg_now = regs[r]
+
+                def fin(step=step, r=r, sreq=sreq, sp=sp, succ=succ, nm=nm, sform=op['sform'], reg_now=reg_now):
+                    ctx.fault('finalizer-reenters-mutator')
+                    fired.append(1)
+                    try:
+                        if regs[r] is not reg_now:
+                            return
+                        if sform == 'sub':
+                            m_ = ('sub', r, real_req(sreq), P[sp], succ)
+                            mutlog.append(m_)
+                            apply(regs, m_)
+                            subs.append((r, norm(sreq), sp, succ))
+                        else:
+                            m_ = ('reg', r, real_req(sreq), P[sp], nm, succ)
+                            mutlog.append(m_)
+                            apply(regs, m_)
+                            live[(r, norm(sreq), sp, nm)] = succ
+                    except Exception as e:      # noqa: would otherwise be swallowed by the interpreter ("Exception ignored in ...")
+                        fin_errors.append(e)
+                mortal = Mortal(1000 + step, {'eq': 'e' if op['how'] == 2 else None})
+                import weakref as _wr
+                mref = _wr.ref(mortal)
+                if op['form'] == 'sub':
+                    if op.get('extra'):
+                        # another subscriber under the same key, so that the leaf is replaced rather than deleted
+                        v0 = vals[op['v'] % len(vals)]
+                        mutate(('sub', r, real_req(req), P[p], v0))
+                        subs.append((r, norm(req), p, v0))
+                    regs[r].subscribe(real_req(req), P[p], mortal)
+                    if op.get('cached'):
+                        # a remembered result keeps the value alive until the caches are dropped at the end of the mutator
+                        regs[r].subscriptions(tuple(Interface if x is None else x for x in real_req(req)), P[p])
+                        ctx.probe('mortal-value-held-by-a-cache')
+                    mortal.fin = fin
+                    how = op['how']
+                    if how == 0:
+                        del mortal
+                        m_ = ('unsub', r, real_req(req), P[p], None)
+                        gone = lambda t: True
+                    elif how == 1:
+                        m_ = ('unsub', r, real_req(req), P[p], mortal)      # (the log entry keeps it alive until the end of this step)
+                        del mortal
+                        gone = lambda t: False
+                    else:
+                        eqv = [x for x in vals if x.eq == 'e'][0]
+                        del mortal
+                        m_ = ('unsub', r, real_req(req), P[p], eqv)
+                        gone = lambda t, eqv=eqv: t == eqv
+                    apply(regs, m_)
+                    if how == 1:
+                        m_ = None               # ... now the registry's release was not the last one; this one is
+                    else:
+                        # (net effect on a replayed twin: whatever else the unsubscribe removed; the mortal value never existed there)
+                        mutlog.insert(len(mutlog) - len(fired), m_)
+                    # the model: everything under the key that the call removes, except what the finalizer added meanwhile
+                    added = subs[len(subs) - (1 if (fired and op['sform'] == 'sub') else 0):] if fired else []
+                    kept = [t for t in subs[:len(subs) - len(added)]
+                            if not (t[0] == r and t[1] == norm(req) and t[2] == p and gone(t[3]))]
+                    subs[:] = kept + added
+                    last_mut[0] = 'unsubscribe'
+                    opk = (norm(req), p)
+                else:
+                    regs[r].register(real_req(req), P[p], nm, mortal)
+                    if op.get('cached'):
+                        regs[r].lookup(tuple(Interface if x is None else x for x in real_req(req)), P[p], nm)
+                        ctx.probe('mortal-value-held-by-a-cache')
+                    mortal.fin = fin
+                    del mortal
+                    v2 = vals[op['v'] % len(vals)]
+                    m_ = ('reg', r, real_req(req), P[p], nm, v2)        # overwrite: the old value is released by the store
+                    apply(regs, m_)
+                    mutlog.insert(len(mutlog) - len(fired), m_)
+                    if not (fired and op['sform'] == 'reg' and (norm(sreq), sp) == (norm(req), p)):
+                        live[(r, norm(req), p, nm)] = v2
+                    last_mut[0] = 'register'
+                    opk = (norm(req), p, nm)
+                m_ = None
+                mm = mref()
+                if mm is not None:
+                    # something else still owns it: disarm, so that it cannot fire at a moment the simulator did not choose
+                    mm.fin = None
+                    ctx.probe('mortal-value-survived-the-mutator')
+                del mm
+                if fired:
+                    ctx.probe('finalizer-fired-inside-the-mutator')
+                ctx.log(step, 'mortal', op['form'], r, req, p, op['how'], len(fired), op['sform'], sreq, sp)
+                if fin_errors:
+                    unexpected(None, 'finalizer-' + op['sform'], fin_errors[0])
             elif name == 'rbases':
                 r = op['r'] % nR
                 if op.get('pick_multi'):
@@ -1652,7 +1780,7 @@ def execute(program, ctx, mode):
             else:
                 raise ValueError('unknown op %r' % (name,))
             ctx.probe('mut-' + last_mut[0])
-            if 'C09' in props and mutated and name in ('reg', 'unreg', 'sub', 'unsub', 'rebuild'):
+            if 'C09' in props and mutated and name in ('reg', 'unreg', 'sub', 'unsub', 'rebuild', 'mortal'):
                 check_book(op['r'] % nR, opk)
             if (h64(k, 'probe') % 100) < probe_p:
                 probe(k)
